@@ -134,6 +134,8 @@ def candidates(rel):
         except SyntaxError:
             continue
         line_old = src.splitlines()[ln - 1].strip()
+        if rel == 'instruments/sat.py' and not any(isinstance(f, ast.FunctionDef) and f.name == 'create_acquisition' and f.lineno <= ln <= f.end_lineno for f in tree.body):
+            continue  # module constants of the SAT instrument model: not the subject of any statement
         res.append(dict(file=rel, line=ln, kind=kind, start=s, end=e, new=new, old_text=src[s:e], line_text=line_old))
     return res
 
